@@ -127,6 +127,7 @@ type Frame struct {
 }
 
 type loopRun struct {
+	headShadow *State // the state at the head of the iteration (after the invariants were assumed), for iteration clauses
 	heapAtHead map[string]Term
 	decr0      Term
 	hasDecr    bool
